@@ -827,6 +827,7 @@ BUFR_Template *bufr_load_template( const char *filename, BUFR_Tables *mtbls )
       bufr_print_debug( errmsg );
       bufr_print_debug( _("Error: Unable to create Template\n") );
       bufr_free_template( tmplt );
+      bufr_free_tables( tbls );
       return NULL;
       }
 
